@@ -283,6 +283,7 @@ func isInvoke(name string) func(*an.Expr) bool {
 }
 
 func runC13(c *Ctx) {
+	sharedRejections(c, "R-C13-7", "prefixes-overlap")
 	listingErrors(c, "R-C13-6", [][3]string{{"internal/plugin", "Prefix", "current"}, {"internal/plugin", "Prefix", "Apply"}, {"internal/system", "addresser", "AddressesByIndex"}})
 	cur := c.needMethod("R-C13-1", "internal/plugin", "Prefix", "current")
 	if cur == nil {
@@ -942,6 +943,8 @@ func c14Compose(c *Ctx) {
 // ---- C15 ------------------------------------------------------------------
 
 func runC15(c *Ctx) {
+	// "the same rule the configuration enforces for static routes": overlapping or repeated static routes are rejected
+	sharedRejections(c, "R-C15-6", "routes-overlap")
 	listingErrors(c, "R-C15-5", [][3]string{{"internal/plugin", "Route", "current"}, {"internal/plugin", "Route", "Apply"}, {"internal/system", "addresser", "LoopbackRoutes"}, {"internal/system", "addresser", "routesByIndex"}})
 	cur := c.needMethod("R-C15-1", "internal/plugin", "Route", "current")
 	if cur == nil {
